@@ -335,6 +335,24 @@ def reinlla (c impl : List String) : Option Verdict := do
            else if got != want then "an RA of a re-established interface carries a source link-layer address other than the interface's hardware address at that (re)initialisation (stale plugin state)"
            else "" }
 
+/-- `reinidx tf nd (idx mac)* | nconn idx*`: the same runs; a plugin that binds its source of system
+    state to the interface it is prepared for (as the `::/64`, `::/0` and `::` wildcards bind their
+    rtnetlink dumps to `ifi.Index`) must have been prepared for the interface found at THAT
+    (re)initialisation: the first RA on every connection shows the index of that dial -/
+def reinidx (c impl : List String) : Option Verdict := do
+  let (_tf, dials) ← P.run (do
+    let a ← P.int
+    let l ← P.list (do let i ← P.nat; let m ← P.nat; pure (i, m))
+    pure (a, l)) c
+  let got ← P.run (P.list P.nat) impl
+  let want := dials.map (·.1)
+  let model := s!"{want.length}" ++ String.join (want.map fun m => s!" {m}")
+  pure { model := model, oracle := got == want,
+         nontrivial := decide (dials.length ≥ 2) && (dials.map (·.1)).eraseDups.length ≥ 2,
+         note := if got.length != want.length then "the interface was not re-established once per link-state change"
+           else if got != want then "a plugin was not prepared for the interface found at a re-initialisation: its source of system state is still bound to the interface index of an earlier incarnation"
+           else "" }
+
 /-- `flap monitor tf k | dials oldUse served`: the link drops at `tf` and again during each of the
     next `k` dials (the notification is queued before the new incarnation watches the channel).
     Every link-state change tears the task down and the interface is re-established (C10):
